@@ -10,7 +10,8 @@ client.py `callRemote`):
     by element; structs field by field; dict entries key then value; a variant's content), so a body is
     abstracted to a tree `BV` whose leaves are descriptor arguments or anything else.
   * `_marshal`: the body is marshalled only `if self.signature:`; `if oobFDs:` (a non-empty list after
-    that) the header field `unix_fds = len(oobFDs)` is added.
+    that) the header field `unix_fds = len(oobFDs)` is added.  (`_marshal(rawBody=...)`, which the bus uses
+    to forward a received body unchanged, marshals nothing and is not modelled.)
   * `sendMessage`: `if hasattr(msg, 'oobFDs') and msg.oobFDs:` one `transport.sendFileDescriptor(fd)`
     per entry, in list order, then `transport.write(msg.rawMessage)`.
   * `callRemote` passes a fresh `oobFDs=[]` for every call.
